@@ -47,7 +47,8 @@ PROBES = ["image_moved_between_redraws", "image_disappeared", "bare_non_composit
           "ghost_free_redraws", "returned_to_earlier_layout",
           "kitty_style_by_forced_support", "grid_row_redivided",
           "kitty_widget_spec_with_z_index_field", "redraw_interrupted",
-          "images_rerendered_in_place", "stray_image_before_start"]
+          "images_rerendered_in_place", "stray_image_before_start",
+          "redraw_while_resize_pending"]
 COMPONENTS = {
     "real": ["UrwidImageScreen (draw_screen, clear, clear_images, _start, _stop, "
              "_ti_clear_images)", "UrwidImage / UrwidImageCanvas", "KittyImage / ITerm2Image / "
@@ -422,6 +423,18 @@ def run(ch, ctx, fault=None):
                     layout = {"kind": "pile", "items": []}
                     ctx.op(desc)
                     continue
+                if ch.bool("resize_pending", 0.12):
+                    # SIGWINCH arrived (font change, tmux re-attach: the size turns out to be the
+                    # same): the main loop calls draw_screen() while the resize is pending -
+                    # urwid paints nothing then - handles the "window resize" input and calls
+                    # draw_screen() again, with the very same cached canvas
+                    screen._resized = True
+                    try:
+                        screen.draw_screen((size[0], size[1]), canvas)
+                    finally:
+                        screen._resized = False
+                    out.drain()
+                    ctx.probe("redraw_while_resize_pending")
                 geo = image_geometry(canvas)
                 if not isinstance(canvas, urwid.CompositeCanvas):
                     ctx.probe("bare_non_composite_canvas")
